@@ -46,6 +46,21 @@ class SymAPI(object):
     def check(self, cond, label):
         return self.ctx.check(cond, label)
 
+    def check_all(self, pairs):
+        """[(cond, label), ...]: same meaning as check() on each pair in turn,
+        but one solver query when all of them hold (the usual case)."""
+        pairs = list(pairs)
+        allc = self.all([c for c, l in pairs])
+        if isinstance(allc, SymBool) and len(pairs) > 1:
+            if not self.ctx._check(z3.Not(allc.e)):
+                self.ctx.stats['checks'] += len(pairs)
+                self.ctx.stats['discharged'] += len(pairs)
+                return True
+        ok = True
+        for c, l in pairs:
+            ok = self.ctx.check(c, l) and ok
+        return ok
+
     def assume(self, cond, why=""):
         self.ctx.assume(cond, why)
 
@@ -174,6 +189,11 @@ class NativeAPI(object):
         if not cond:
             self.failed.append(label)
             raise CheckFailed(label)
+        return True
+
+    def check_all(self, pairs):
+        for c, l in list(pairs):
+            self.check(c, l)
         return True
 
     def assume(self, cond, why=""):
